@@ -658,7 +658,7 @@ func (ss *SpecSet) ParseSpecText(origin, pkgPrefix string, lines []string) error
 				return fmt.Errorf("%s: modifies outside func", origin)
 			}
 			var ms []string
-			for _, m := range strings.Split(rest, ",") {
+			for _, m := range splitTopLevel(rest) {
 				m = strings.TrimSpace(m)
 				if m != "" && m != "nothing" {
 					ms = append(ms, m)
@@ -775,4 +775,25 @@ func parseSig(s string) (string, []Binder, string, error) {
 		bs = append(bs, Binder{f[0], f[1]})
 	}
 	return name, bs, strings.TrimSpace(s[j+1:]), nil
+}
+
+func splitTopLevel(s string) []string {
+	var out []string
+	depth := 0
+	last := 0
+	for i, c := range s {
+		switch c {
+		case '(', '[':
+			depth++
+		case ')', ']':
+			depth--
+		case ',':
+			if depth == 0 {
+				out = append(out, strings.TrimSpace(s[last:i]))
+				last = i + 1
+			}
+		}
+	}
+	out = append(out, strings.TrimSpace(s[last:]))
+	return out
 }
